@@ -33,6 +33,7 @@ func (e c16Ev) String() string {
 type c16Case struct {
 	Protocol int
 	History  []c16Ev
+	Try      []string // try list of the world (default a,b)
 }
 
 type connectResult struct {
@@ -223,6 +224,18 @@ func (r *c16Run) apply(i int, ev c16Ev, known map[*kPeer]bool) {
 			return
 		}
 		b := r.w.servers[prev].last()
+		if ev.Answer == "fallback-refuse" {
+			for n, s := range r.w.servers {
+				if n != prev {
+					s.mode = "refuse"
+				}
+			}
+			defer func() {
+				for _, s := range r.w.servers {
+					s.mode = "accept"
+				}
+			}()
+		}
 		if ev.Kind == "kick-play" {
 			r.disconnectPacket(b, state.Play, states.PlayState)
 		} else {
@@ -231,6 +244,54 @@ func (r *c16Run) apply(i int, ev c16Ev, known map[*kPeer]bool) {
 		r.settle()
 		r.current = "?" // fallback choice is C17's business; consistency is checked below
 		r.resolveFallbacks(known)
+	case "connect-denied", "connect-redirected":
+		target := ev.Target
+		if target == prev || prev == "" {
+			return
+		}
+		dest := target
+		r.w.onPreConnect = func(e *ServerPreConnectEvent) {
+			if ev.Kind == "connect-denied" {
+				e.Deny()
+			} else {
+				e.Allow(r.w.p.Server(ev.Answer))
+			}
+		}
+		defer func() { r.w.onPreConnect = nil }()
+		if ev.Kind == "connect-redirected" {
+			dest = ev.Answer
+			if dest == prev {
+				return
+			}
+		}
+		dials := len(r.w.dialLog)
+		res := r.connect(target, true)
+		r.settle()
+		if ev.Kind == "connect-denied" {
+			if !res.done || res.err != nil || res.status != CanceledConnectionStatus {
+				r.fail("denied-request-result", "%s: a request denied by the pre-connect event returned done=%v status=%d err=%v", step, res.done, res.status, res.err)
+			}
+			if len(r.w.dialLog) != dials {
+				r.fail("denied-request-dialled", "%s: a denied request dialled %v", step, r.w.dialLog[dials:])
+			}
+		} else {
+			srv := r.w.servers[dest]
+			b := srv.last()
+			if len(r.w.dialLog) != dials+1 || b == nil || known[b] {
+				r.fail("redirected-request-dial", "%s: redirected request dialled %v, want exactly %s", step, r.w.dialLog[dials:], dest)
+				return
+			}
+			known[b] = true
+			if err := r.w.backendAccept(r.cl, b, r.protocol, "Switcher", -1, 60+i); err != nil {
+				r.fail("switch-setup", "%s: %v", step, err)
+				return
+			}
+			r.settle()
+			if !res.done || res.err != nil || res.status != SuccessConnectionStatus {
+				r.fail("redirected-request-result", "%s: returned done=%v status=%d err=%v", step, res.done, res.status, res.err)
+			}
+			r.current = dest
+		}
 	case "connect", "connect-while-inflight":
 		target := ev.Target
 		if target == prev {
@@ -416,7 +477,11 @@ func (r *c16Run) ackStartUpdate() {
 
 func runC16(t *testing.T, c c16Case) (key, fk, fd string) {
 	synctest.Test(t, func(t *testing.T) {
-		w := newKWorld(t, kOpts{Servers: []string{"a", "b", "c"}, Try: []string{"a", "b"}, ClientThreshold: 256})
+		try := c.Try
+		if len(try) == 0 {
+			try = []string{"a", "b"}
+		}
+		w := newKWorld(t, kOpts{Servers: []string{"a", "b", "c"}, Try: try, ClientThreshold: 256})
 		r := &c16Run{t: t, w: w, protocol: proto.Protocol(c.Protocol), current: "a"}
 		cl, be, err := w.joinInitial(r.protocol, "Switcher", -1)
 		r.cl = cl
@@ -470,6 +535,9 @@ func TestVerif(t *testing.T) {
 			c16Ev{Kind: "connect-while-inflight", Target: "b", Answer: "accept"},
 			c16Ev{Kind: "connect-while-inflight", Target: "c", Answer: "disc-login"},
 			c16Ev{Kind: "connect-current"},
+			c16Ev{Kind: "connect-denied", Target: "b"},
+			c16Ev{Kind: "connect-redirected", Target: "b", Answer: "c"},
+			c16Ev{Kind: "kick-play", Answer: "fallback-refuse"},
 			c16Ev{Kind: "kick-play"},
 			c16Ev{Kind: "close-play"},
 		)
@@ -499,6 +567,29 @@ func TestVerif(t *testing.T) {
 			}
 			for k, f := range res.Failures {
 				r.Violation(k, fmt.Sprintf("protocol %d, history %v (seen %d×)\n%s", pr, f.History, f.Count, f.Desc), c16Case{Protocol: int(pr), History: f.History})
+			}
+			// world with try list [a]: after a kick no fallback is left -> the player must be disconnected cleanly
+			small := []c16Ev{{Kind: "kick-play"}, {Kind: "close-play"}, {Kind: "connect", Target: "b", Answer: "accept"}, {Kind: "connect", Target: "b", Answer: "refuse"}, {Kind: "connect", Target: "b", Answer: "disc-after-login"}}
+			res2 := bfs.Explore(bfs.Config[c16Ev]{
+				Name: fmt.Sprintf("proto=%d try=[a]", pr), Ops: small, Depth: 2, Shard: r.Shard, NShards: r.NShards, Deadline: r.DeadlineTime(),
+				Run: func(h []c16Ev) bfs.Outcome {
+					k, fk, fd := runC16(t, c16Case{Protocol: int(pr), History: h, Try: []string{"a"}})
+					r.Class("try=[a]/last-event:" + h[len(h)-1].Kind + "/" + h[len(h)-1].Answer)
+					return bfs.Outcome{Key: "", FailKey: fk, FailDesc: fd, Obs: k}
+				},
+			})
+			r.Eval(res2.Transitions)
+			r.States(res2.States)
+			r.Transitions(res2.Transitions)
+			r.Traces(res2.Transitions)
+			for o := range res2.Outcomes {
+				r.Distinct(fmt.Sprintf("%d|try-a|%s", pr, o))
+			}
+			if !res2.Exhaustive {
+				r.NotExhaustive(res2.Reason)
+			}
+			for k, f := range res2.Failures {
+				r.Violation(k, fmt.Sprintf("protocol %d, try list [a], history %v (seen %d×)\n%s", pr, f.History, f.Count, f.Desc), c16Case{Protocol: int(pr), History: f.History, Try: []string{"a"}})
 			}
 			if res.Sample == nil {
 				for _, f := range []c16Ev{evs[0]} {
